@@ -196,3 +196,12 @@ def check(ctx, run):  # noqa: F811
     run.require("C12.R6", 5)
     closed_form_precision_rule(ctx, run, "C12.R6", ["european_payoff", "lookback_payoff", "american_binary_payoff", "european_binary_payoff", "european_forward_start_payoff", "realized_variance"],
                                "a float strike / dt is compared with the prices unrounded (ties with the strike are decided at the precision of the prices)")
+
+
+_check_before_purity = check
+
+
+def check(ctx, run):  # noqa: F811
+    _check_before_purity(ctx, run)
+    from .c02 import no_memoised_state
+    no_memoised_state(ctx, run, "C12.R7", "a payoff remembered from an earlier evaluation is returned after the contract or the paths changed")
